@@ -10,6 +10,6 @@ CONSTANTS
   Permissive = FALSE
   Bug = {}
   GenMode = "resume"
-  MaxChanges = 2
+  MaxChanges = 1
 INVARIANT EmitTrace
 CHECK_DEADLOCK FALSE
